@@ -17,3 +17,5 @@ ASSUMPTIONS = ["argparse, ChainMap and ConfigParser semantics (trusted stdlib)"]
 
 def run(project, rep):
     rep.run(G.g_rules, project, rep)
+    from .. import rules_values as V
+    rep.run(V.v_r8_token_tables, project, rep, modules_prefix=("ofxtools.scripts.ofxget",))
